@@ -13,7 +13,9 @@ import (
 	"golang.org/x/perf/internal/verifh/hx"
 )
 
-var atoms = []string{".config", ".fullname", ".name", "/p", "/q", "/gomaxprocs", "k0", "k1", "k2", "i", ".file", ".config", ".fullname"}
+var atoms = []string{".config", ".fullname", ".name", "/p", "/q", "/gomaxprocs", "k0", "k1", "k2", "i", ".file", ".config", ".fullname",
+	// file-configuration keys with an inner '/' (a sub-name key STARTS with '/'), mixed-case keys, keys differing only in case
+	"toolchain/go", "a/b/c", "/N", "/n", "/bufSize", "K1", "k0", ".config"}
 
 // values incl. leading/trailing blanks and tabs, inner blanks, whitespace-only values: a value is
 // kept byte for byte ("Xeon " is not "Xeon")
@@ -44,6 +46,8 @@ func genName(r *hx.Rand) string {
 		name += "/" + hx.Pick(r, []string{"p=1", "p=2", "q=1", "q=x", "gomaxprocs=4", "z", "p=", "r=7",
 			// dashes inside values and non-numeric dash tails (only a trailing -digits is GOMAXPROCS)
 			"p=en-US", "p=en-GB", "q=1-2", "q=a-b-c", "p=-", "r=7-x", "z-9",
+			// mixed-case sub-name keys; /n and /N are different keys
+			"N=1000", "n=5", "N=off", "bufSize=4k", "bufsize=1", "GOGC=off",
 			// keys that have a projected key (/p, /q) as a proper prefix, and positional parts beginning
 			// like one: excluding /p must not touch /pq, /p2 or /px
 			"pq=5", "pq=6", "p2=1", "p2=2", "px", "qq=x", "qq=y", "q2", "pp=1",
@@ -89,6 +93,10 @@ func genResult(r *hx.Rand, i int) ResT {
 		// the same key occurs as FILE configuration in most results and as INTERNAL configuration
 		// (Result.SetConfig) in some: `.config` and the residue cover File entries only
 		res.Cfg = append(res.Cfg, CfgT{"k" + strconv.Itoa(jj), v, !r.Chance(1, 6)})
+	}
+	if r.Chance(1, 3) {
+		// file keys with an inner '/', upper-case keys, keys differing only in case from k1
+		res.Cfg = append(res.Cfg, CfgT{hx.Pick(r, []string{"toolchain/go", "a/b/c", "K1", "ci/runner"}), hx.Pick(r, []string{"v1", "v2", "go1.21"}), !r.Chance(1, 8)})
 	}
 	if r.Chance(1, 3) {
 		// … and vice versa: mostly internal, sometimes a file key
